@@ -737,7 +737,15 @@ func (h *harness) final(reason string) {
 				continue
 			}
 			if d.Kind == oClose {
-				behindClose += h.closeBound()
+				// Close calls are serialized: c may have queued behind the ones that finished before it,
+				// each for no longer than that call itself took and no longer than a healthy Close takes
+				if d.Tick1 < c.Tick1 {
+					dd := d.T1 - d.T0
+					if cb := h.closeBound(); dd > cb {
+						dd = cb
+					}
+					behindClose += dd
+				}
 			} else {
 				behindOpen += d.Bound
 				if h.sc.Active {
